@@ -60,7 +60,12 @@ def doc(tag, variant):
         # driver (or Merger) that keeps working on the root object it saw first shows up in the next step (dup comes first: the rebuild then precedes the append of TAG)
         return ["dup", tag]
     if variant == "map":
-        return {"a": [tag], tag: 1, "last": tag}
+        d = {"a": [tag], tag: 1, "last": tag}
+        if tag.startswith("R"):
+            # a list only the right-hand documents have: a left document ADOPTS it, and two left documents that adopt
+            # it from the same right-hand document must not end up sharing the node (matrix mode)
+            d["only_right"] = [tag]
+        return d
     return {"a": [tag, "dup"], "h": {tag: 1, "k": tag}, "s": SetT((tag, "m")), "r": [{"a": tag}], "last": tag}
 
 
@@ -445,7 +450,7 @@ def run(tier="quick", seed=0, jobs=None):
         _cleanup()
     bounds = {
         "streams": "lengths 1..4 on both sides (right side also 0: a single multi-document file); every position is an empty document "
-                   "or a position-tagged document: map = {a: [TAG], TAG: 1, last: TAG}; list = [dup, TAG]; "
+                   "or a position-tagged document: map = {a: [TAG], TAG: 1, last: TAG} (+ only_right: [TAG] in right-hand documents); list = [dup, TAG]; "
                    "rich = {a: [TAG, dup], h: {TAG: 1, k: TAG}, s: !!set {TAG, m}, r: [{a: TAG}], last: TAG} (lengths 1..3)",
         "modes": list(MODES), "policies": POLICIES,
         "channels": "driver functions on Merger lists (all cases with a right stream); merge_docs with the right stream in a file and "
